@@ -33,7 +33,9 @@ LAMBDAS = {
     "where": ["lambda e: e.met > 10", "lambda e: e.jets().Count() > 1 and e.ok"],
     "selectmany": ["lambda e: e.jets()", "lambda e: e.jets().Where(lambda j: j.pt() > 1)"],
 }
-_vals = st.one_of(st.integers(0, 3), st.sampled_from(["x", "y", ""]), st.lists(st.integers(0, 2), max_size=2), st.booleans(), st.just(0.5))
+# different values may print alike (1 and '1', True and 'True', [0] and '[0]'): what counts is the value
+_vals = st.one_of(st.integers(0, 3), st.sampled_from(["x", "y", ""]), st.lists(st.integers(0, 2), max_size=2), st.booleans(), st.just(0.5),
+                  st.sampled_from(["1", "2", "True", "0.5", "[0]", "[]", "None"]))
 
 
 @st.composite
